@@ -8,6 +8,7 @@ stop event) and polling modelled as waiting.  Quiescence with an incomplete Futu
 from __future__ import annotations
 
 import collections
+import os
 import fnmatch
 import json
 import queue as _queue
@@ -167,14 +168,43 @@ JOBS = {
     "BADCFG": (("src", "bogus"), {}),
     # fails inside Pipeline(...) itself (before any process() call): a sweep without variables
     "BADCTOR": ("<explicit>", {}),
+    # the pipeline is named by a RELATIVE YAML path (what enqueue() documents as its other form); the process has changed its working
+    # directory since the framework was imported.  Y1 is a good file, YMISSING names no file, YBAD a file that holds no pipeline
+    "Y1": ("<yaml>", {}),
+    "YMISSING": ("<yaml>", {}),
+    "YBAD": ("<yaml>", {}),
 }
+YAML_JOBS = {"Y1": ("src", "mul3", "probe_r"), "YMISSING": None, "YBAD": "pipeline: {nodes: 7}\n"}
 EXPLICIT_NODES = {
     "BADCTOR": [{"processor": "VSrc", "parameters": {"value": 2.0}},
                 {"processor": "VMul", "derive": {"parameter_sweep": {"parameters": {"factor": "t"}, "variables": {}, "collection": "FloatDataCollection"}}}],
 }
 
 
-def job_nodes(name: str) -> List[dict]:
+def _yaml_job_path(name: str) -> str:
+    """Relative path of the job's YAML file inside a directory entered AFTER the framework's queue modules were imported."""
+    import yaml
+
+    from semantiva.execution.job_queue import queue_orchestrator, worker  # noqa: F401 - imported before the directory changes
+
+    d = os.path.join(harness.scratch_dir(), "jobs here")
+    os.makedirs(d, exist_ok=True)
+    os.chdir(d)
+    rel = os.path.join("cfg", f"{name.lower()}.yaml")
+    os.makedirs("cfg", exist_ok=True)
+    spec = YAML_JOBS[name]
+    if spec is None:
+        if os.path.exists(rel):
+            os.unlink(rel)
+    else:
+        with open(rel, "w") as fh:
+            fh.write(spec if isinstance(spec, str) else yaml.safe_dump(gen.yaml_config(spec), sort_keys=False))
+    return rel
+
+
+def job_nodes(name: str):
+    if name in YAML_JOBS:
+        return _yaml_job_path(name)
     if name in EXPLICIT_NODES:
         cfg = harness.load_config({"extensions": ["verif_lib"], "pipeline": {"nodes": EXPLICIT_NODES[name]}})
         return cfg.nodes
@@ -191,7 +221,12 @@ def direct(name: str):
         from semantiva.pipeline import Pipeline
 
         try:
-            pipe = Pipeline(job_nodes(name))
+            spec = job_nodes(name)
+            if isinstance(spec, str):
+                from semantiva.configurations.load_pipeline_from_yaml import load_pipeline_from_yaml
+
+                spec = load_pipeline_from_yaml(spec).nodes
+            pipe = Pipeline(spec)
         except Exception as exc:  # the pipeline cannot even be constructed: the job must still fail its Future
             _DIRECT[name] = ("construct", None, dict(JOBS[name][1]), type(exc).__name__)
             return _DIRECT[name]
@@ -426,13 +461,15 @@ def plans(tier: str):
                 (("J1", "FAIL"), 1, 1, False), (("BADCFG", "J1"), 1, 0, False), (("BADCTOR",), 1, 1, False), (("J1", "BADCTOR", "J2"), 1, 0, False),
                 (("BADCTOR", "J1"), 2, 0, False),
                 (("J1", "J2"), 1, 1, "worker"), (("FAIL", "J2"), 1, 1, "worker"), (("K1", "K2"), 2, 1, "pair"), (("K3", "K3"), 2, 1, "pair"), (("K1", "K2"), 2, 0, False),
-                (("J1", "J2", "FAIL"), 2, 0, "retire")]
+                (("J1", "J2", "FAIL"), 2, 0, "retire"),
+                (("Y1", "J1"), 1, 1, False), (("YMISSING", "J1"), 1, 0, False), (("J1", "YBAD", "Y1"), 2, 0, False)]
     return [(("J1",), 1, 3, False), (("J1", "J2"), 1, 2, False), (("J1", "J2"), 2, 2, False), (("J1", "J2", "J3"), 2, 1, False), (("FAIL",), 1, 2, False),
             (("J1", "FAIL"), 1, 2, False), (("FAIL", "J2"), 2, 2, False), (("J1", "FAIL", "J3"), 2, 1, False), (("J1", "J2", "FAIL"), 2, 1, False),
             (("FAIL", "J1", "J2"), 1, 1, False), (("BADCFG", "J1"), 2, 1, False), (("J1", "J1"), 2, 2, False),
             (("BADCTOR",), 1, 2, False), (("J1", "BADCTOR", "J2"), 1, 1, False), (("BADCTOR", "J1"), 2, 1, False), (("J1", "BADCTOR"), 2, 1, "worker"),
             (("J1",), 1, 2, True), (("J1", "J2"), 1, 1, True), (("J1", "J2"), 2, 1, "worker"), (("FAIL", "J2"), 2, 1, "worker"), (("J1", "J2"), 2, 1, True),
-            (("K3", "K4"), 2, 1, "ctxproc"), (("K1", "K2"), 2, 2, "pair"), (("K1", "K1", "K2"), 3, 1, "pair"), (("K3", "K4"), 2, 3, "pair"), (("K2", "K1"), 2, 1, False), (("J1", "J2", "FAIL"), 2, 1, "retire"), (("J1", "J2", "J3", "FAIL"), 3, 0, "retire")]
+            (("K3", "K4"), 2, 1, "ctxproc"), (("K3", "K4"), 2, 1, "pair"), (("K1", "K1", "K2"), 3, 1, "pair"), (("K2", "K1"), 2, 1, False), (("J1", "J2", "FAIL"), 2, 1, "retire"), (("J1", "J2", "J3", "FAIL"), 3, 0, "retire"),
+            (("Y1", "J1"), 2, 2, False), (("YMISSING", "J1"), 2, 1, False), (("J1", "YBAD", "Y1"), 2, 1, False), (("Y1", "Y1"), 2, 1, "worker")]
 
 
 class PileUp:
@@ -497,7 +534,9 @@ def check(tier: str, seed: int) -> Result:
     cap = 200000 if tier == "quick" else 2000000
     per: Dict[str, dict] = {}
     jobs = []
-    for batch, nworkers, bound, fine in plans(tier):
+    only = os.environ.get("VERIF_C15_ONLY")  # diagnostic: comma-separated plan indexes (timing one harness alone)
+    chosen = [p for i, p in enumerate(plans(tier)) if not only or str(i) in only.split(",")]
+    for batch, nworkers, bound, fine in chosen:
         key = f"{'+'.join(batch)}/w{nworkers}{('/lines-' + str(fine)) if fine else ''}"
         x0 = run_any(batch, nworkers, [], fine)
         x1 = run_any(batch, nworkers, [], fine)
@@ -541,7 +580,7 @@ def check(tier: str, seed: int) -> Result:
         samples.append({"harness": key, "bound": p["bound"], "executions": p["executions"], "distinct_outcomes": len(p["outcomes"]),
                         "by_preemptions": p["by_preemptions"], "points_default_run": p["points_default_run"], "capped": p["capped"]})
     # larger batches under the enumerated round-robin family
-    rr = large_batches(tier)
+    rr = large_batches(tier) if not only else []
     rr_n = rr_points = 0
     for part in core.pmap_chunks(_rr_worker, rr, chunk=max(1, len(rr) // (core.NPROC * 3))):
         for njobs, nworkers, quantum, rot, npts, bad in part:
@@ -580,3 +619,31 @@ def replay(case) -> List[Violation]:
     x = run_any(batch, case["workers"], case["choices"], case.get("fine", False))
     bad = judge_any(batch, case.get("fine", False))(x)
     return [Violation(bad[0], bad[1], case)] if bad else []
+
+
+
+# ---------------------------------------------------------------------------------------------
+# environment grid (mc/envgrid.py): a fixed, enumerated family of schedules of the quick harnesses, judged in every environment
+
+def env_cases(tier: str):
+    out = []
+    for batch, nworkers, bound, fine in plans("quick"):
+        if fine not in (False, "pair"):
+            continue
+        x = run_any(batch, nworkers, [], fine)
+        out.append({"batch": list(batch), "workers": nworkers, "fine": fine, "prefix": []})
+        alts = [(i, a) for i, p in enumerate(x.points) for a in range(1, len(p.enabled))]
+        for i, a in alts[:: max(1, len(alts) // (3 if tier == "quick" else 30))]:
+            out.append({"batch": list(batch), "workers": nworkers, "fine": fine, "prefix": x.choices[:i] + [a]})
+    return out
+
+
+def env_observe(case):
+    batch = tuple(case["batch"])
+    try:
+        x = run_any(batch, case["workers"], list(case["prefix"]), case["fine"])
+    except sched.ReplayDivergence:
+        # python -O / -OO compile other line tables: a choice sequence recorded in the base environment may not exist there
+        return {"judged": None, "deadlock": False, "livelock": False}
+    bad = judge_any(batch, case["fine"])(x)
+    return {"judged": bad[0] if bad else None, "deadlock": x.deadlock, "livelock": x.livelock}
